@@ -10,7 +10,7 @@ import re
 import shutil
 import sys
 
-from common import (standard_prologue, run_sharded, run_drv, enc, dec, HX, OKANE, VERIF, WORK, REPO, BuildError)
+from common import (standard_prologue, run_sharded, run_drv, enc, dec, HX, DRV, OKANE, VERIF, WORK, REPO, BuildError)
 
 sys.path.insert(0, os.path.join(VERIF, "tools"))
 import hash_iter_sites  # noqa: E402
@@ -170,6 +170,8 @@ class Ledger:
         self.dates = []
         self.multi_account = rng.choice([a for a in self.accounts if a.startswith("Assets")])
         self.ended = False
+        self.acct_aliases = {}     # alias -> canonical (declared by `directives`)
+        self.comm_aliases = {}
 
     def next_date(self):
         r = self.rng
@@ -193,12 +195,14 @@ class Ledger:
                 body = ["commodity %s" % c, "    format 1,000%s %s" % ("." + "0" * sc if sc else "", c)]
                 if r.random() < 0.2:
                     body.insert(1, "    alias %s_ALIAS" % c)
+                    self.comm_aliases["%s_ALIAS" % c] = c
                     self.features.add("commodity-alias")
                 out.append("\n".join(body))
         for j, a in enumerate(r.sample(self.accounts, min(len(self.accounts), r.randint(0, 4)))):
             body = ["account %s" % a]
             if r.random() < 0.5:
                 body.append("    alias %s" % (a.split(":")[-1] + " alias%d" % j))
+                self.acct_aliases[a.split(":")[-1] + " alias%d" % j] = a
                 self.features.add("account-alias")
             if r.random() < 0.3:
                 body.append("    note some note")
@@ -235,6 +239,28 @@ class Ledger:
         if r.random() < 0.3:
             lines[1] = posting(b)
         self.txn(lines)
+
+    def alias_transfer(self):
+        """postings written through a declared account alias / commodity alias (`okane accounts` does not resolve
+        account aliases: it never sees the `account` directives; book-keeping does)"""
+        r = self.rng
+        if not self.acct_aliases and not self.comm_aliases:
+            return self.transfer()
+        c = r.choice(self.comms)
+        cw = c
+        for al, canon in sorted(self.comm_aliases.items()):
+            if r.random() < 0.7:
+                c, cw = canon, al
+                break
+        v, sc = amt(r, c, neg=False)
+        a, b = r.sample(self.accounts, 2)
+        if self.acct_aliases:
+            a = r.choice(sorted(self.acct_aliases))
+        lines = [posting(a, atext(r, v, sc, cw)), posting(b, atext(r, -v, sc, c))]
+        if r.random() < 0.4:
+            lines[r.randrange(2)] = posting(r.choice([a, b]))
+        self.txn(lines)
+        self.features.add("alias-posting")
 
     def implied_exchange(self):
         r = self.rng
@@ -357,6 +383,33 @@ class Ledger:
         self.features.add("err-cancelling-commodities")
         self.ended = True
 
+    def end_bad_exchange(self):
+        """`@ 0 C`, `@` in the amount's own commodity, a cost on a commodity-less zero, division by zero"""
+        r = self.rng
+        c1, c2 = r.sample(self.comms, 2)
+        kind = r.choice(["zero-rate", "same-commodity", "zero-amount", "div-zero", "number-amount"])
+        text = {"zero-rate": "10 %s @ 0 %s" % (c1, c2), "same-commodity": "10 %s @ 2 %s" % (c1, c1),
+                "zero-amount": "0 @ 2 %s" % c2, "div-zero": "(10 %s / 0)" % c1, "number-amount": "(1 + 2)"}[kind]
+        self.txn([posting(r.choice(self.accounts), text), posting("Equity:Adjustments")])
+        self.features.add("err-" + kind)
+        self.ended = True
+
+    def end_alias_conflict(self):
+        """a directive that cannot be registered: an alias that is already a canonical name (of an account that was
+        posted to), or a commodity declared under a name that is already an alias"""
+        r = self.rng
+        if self.comm_aliases and r.random() < 0.4:
+            al = r.choice(sorted(self.comm_aliases))
+            self.entries.append("commodity %s" % al)
+            self.features.add("err-commodity-is-alias")
+        elif r.random() < 0.5:
+            self.entries.append("account Assets:Conflict\n    alias %s" % self.multi_account)
+            self.features.add("err-alias-is-canonical")
+        else:
+            self.entries.append("commodity CONFLICT\n    alias %s" % self.comms[0])
+            self.features.add("err-commodity-alias-is-canonical")
+        self.ended = True
+
     def end_undeducible(self):
         r = self.rng
         self.txn([posting(r.choice(self.accounts)), posting(r.choice(self.accounts)), posting("Equity:Opening", "1 USD")])
@@ -369,14 +422,15 @@ class Ledger:
         self.multi_deposit()
         n = r.randint(3, 14)
         kinds = [(self.multi_deposit, 3), (self.transfer, 3), (self.implied_exchange, 3), (self.costed, 3), (self.rate_only, 1),
-                 (self.assertion_ok, 1), (self.expr_amount, 1)]
+                 (self.assertion_ok, 1), (self.expr_amount, 1), (self.alias_transfer, 2)]
         bag = [k for k, w in kinds for _ in range(w)]
         for _ in range(n):
             r.choice(bag)()
         if r.random() < fail_ratio:
             r.choice([self.end_unbalanced_multi, self.end_unbalanced_multi, self.end_unbalanced_same_sign,
                       self.end_assertion_fail, self.end_assertion_fail, self.end_zero_assign_multi,
-                      self.end_posting_amount_required, self.end_undeducible, self.end_cancelling_commodities])()
+                      self.end_posting_amount_required, self.end_undeducible, self.end_cancelling_commodities,
+                      self.end_bad_exchange, self.end_alias_conflict])()
         return head
 
 
@@ -455,6 +509,11 @@ def gen_ledger_case(rng, tier, idx):
     add("balance", "main.ledger")
     add("register", "main.ledger")
     add("register", "main.ledger", led.multi_account)
+    other = rng.choice(led.accounts)
+    if led.acct_aliases and rng.random() < 0.3:
+        other = rng.choice(sorted(led.acct_aliases))         # an alias is not an account of the register filter
+    elif rng.random() < 0.15:
+        other = "No:Such Account"
     add("primitive", "flatten", "main.ledger")
     add("primitive", "format", "main.ledger")
     for t in targets:
@@ -467,6 +526,8 @@ def gen_ledger_case(rng, tier, idx):
         if e < s:
             s, e = e, s
         add("balance", "--start", s, "--end", e, "--now", now, "main.ledger")
+        add("balance", "--end" if rng.random() < 0.5 else "--start", rng.choice(led.dates), "main.ledger")
+        add("register", "--start", s, "main.ledger", other)    # RegisterCmd ignores the date range
         add("balance", "-X", targets[0], "--now", now, "--start", s, "--price-db", "prices.db", "main.ledger")
         add("balance", "-X", targets[-1], "--historical", "--now", now, "--end", e, "--price-db", "prices.db", "main.ledger")
     cs = rng.sample(led.comms, min(len(led.comms), rng.randint(2, 5)))
@@ -1023,6 +1084,228 @@ def display_correspondence(chk, jobs):
                           no_failing_input=True, tag="corr")
 
 
+# ------------------------------------------------------------------------------------------------
+# command text: the model of what `balance` / `register` / `accounts` print (Model/CmdText.lean, proved in
+# Lemmas/CmdTextEq.lean to be the command models of the C13 theorems) against the real binary's stdout / stderr / status
+
+VALUE_OPTS = {"--start", "--begin", "--end", "--now", "--price-db", "-X", "--exchange"}
+ANSI = re.compile(r"\x1b\[[0-9;]*m")
+NUM_OPEN, NUM_CLOSE, MORE = "\x01", "\x02", "\x03"
+NUMERAL = re.compile(r"-?[0-9]+(?:\.[0-9]+)?")
+
+
+def date_sx(s):
+    if s is None:
+        return "()"
+    m = re.fullmatch(r"(-?\d+)-(\d\d)-(\d\d)", s)
+    if not m:
+        return None
+    return "((d %d %d %d))" % (int(m.group(1)), int(m.group(2)), int(m.group(3)))
+
+
+def cmd_sexp(case, argv):
+    """the command as the model driver takes it, or None when the command line is not one the text model covers
+    (conversion, price db, other sub-commands).  -> (sexp, ledger file)"""
+    if argv[0] not in ("accounts", "balance", "register"):
+        return None
+    opts, pos = {}, []
+    i = 1
+    while i < len(argv):
+        a = argv[i]
+        if a in VALUE_OPTS:
+            if i + 1 >= len(argv):
+                return None
+            opts[a] = argv[i + 1]
+            i += 2
+        elif a == "--historical":
+            opts[a] = True
+            i += 1
+        elif a.startswith("-"):
+            return None
+        else:
+            pos.append(a)
+            i += 1
+    if any(k in opts for k in ("-X", "--exchange", "--price-db", "--historical")):
+        return None
+    if not pos or pos[0] not in case["files"]:
+        return None
+    if argv[0] == "accounts":
+        return ("(accounts)", pos[0]) if len(pos) == 1 and not opts else None
+    if argv[0] == "balance":
+        s, e = date_sx(opts.get("--start", opts.get("--begin"))), date_sx(opts.get("--end"))
+        if len(pos) != 1 or s is None or e is None:
+            return None
+        return "(balance %s %s)" % (s, e), pos[0]
+    # register: the date range options are accepted and ignored by RegisterCmd::run
+    if len(pos) > 2:
+        return None
+    return ("(register %s)" % enc(pos[1]) if len(pos) == 2 else "(register)"), pos[0]
+
+
+def match_text(model, actual):
+    """matches the binary's text against the model's text: byte for byte outside the numeral holes, by exact value at
+    a hole (the decimal numeral the binary printed there).  -> (ok, detail, holes, non_minimal_numerals)"""
+    from fractions import Fraction
+    pos = 0
+    holes = nonmin = 0
+    parts = model.split(NUM_OPEN)
+    lit = parts[0]
+    if not actual.startswith(lit):
+        return False, "text differs at offset %d" % common_prefix(lit, actual), 0, 0
+    pos = len(lit)
+    for p in parts[1:]:
+        if NUM_CLOSE not in p:
+            return False, "malformed model text", holes, nonmin
+        val, lit = p.split(NUM_CLOSE, 1)
+        m = NUMERAL.match(actual, pos)
+        if not m:
+            return False, "no numeral at offset %d (%r)" % (pos, actual[pos:pos + 30]), holes, nonmin
+        num, den = val.split("/")
+        want = Fraction(int(num), int(den))
+        got = Fraction(m.group(0))
+        if want != got:
+            return False, "numeral at offset %d is %s, model value %s" % (pos, m.group(0), want), holes, nonmin
+        holes += 1
+        txt = m.group(0)
+        if ("." in txt and txt.endswith("0")) or txt.startswith("-0") and got == 0:
+            nonmin += 1
+        pos = m.end()
+        if not actual.startswith(lit, pos):
+            return False, "text differs at offset %d" % (pos + common_prefix(lit, actual[pos:])), holes, nonmin
+        pos += len(lit)
+    if pos != len(actual):
+        return False, "binary printed more text from offset %d (%r)" % (pos, actual[pos:pos + 40]), holes, nonmin
+    return True, "", holes, nonmin
+
+
+def common_prefix(a, b):
+    n = 0
+    while n < len(a) and n < len(b) and a[n] == b[n]:
+        n += 1
+    return n
+
+
+def show_model_text(t):
+    return t.replace(NUM_OPEN, "⟪").replace(NUM_CLOSE, "⟫").replace(MORE, "…")
+
+
+def cmdtext_compare(model_res, kv, impl_idx):
+    """one (input, command): the model's result against what every fresh process did.  -> (agree, what, holes, nonmin)"""
+    st = kv.get("st")
+    out = dec(kv.get("out", "~"))
+    err = ANSI.sub("", dec(kv.get("err", "~")))
+    if model_res.startswith("ok:"):
+        if st != "exit:0":
+            return False, "model: success; binary: %s, stderr %r" % (st, err[:200]), 0, 0
+        if err:
+            return False, "model: success with empty stderr; binary wrote %r to stderr" % err[:200], 0, 0
+        ok, why, holes, nonmin = match_text(dec(model_res[3:]), out)
+        return ok, "stdout: " + why, holes, nonmin
+    if model_res.startswith("err:"):
+        _, idx, msg = model_res.split(":", 2)
+        msg = dec(msg)
+        if st != "exit:1":
+            return False, "model: book-keeping error at entry %s (%s); binary: %s" % (idx, show_model_text(msg), st), 0, 0
+        if out:
+            return False, "model: nothing on stdout before the error; binary printed %r" % out[:200], 0, 0
+        lines = err.split("\n")
+        if len(lines) < 2 or lines[0] != "failed to report" or not lines[1].startswith("Caused by error: "):
+            return False, "stderr does not start with `failed to report / Caused by error: `: %r" % err[:200], 0, 0
+        title = lines[1][len("Caused by error: "):]
+        if msg.endswith(MORE):
+            # the binary's message continues with data the model's error value does not carry (no numerals in these)
+            ok, why, holes, nonmin = title.startswith(msg[:-1]), "the title does not start with the model's text", 0, 0
+        else:
+            ok, why, holes, nonmin = match_text(msg, title)
+        if not ok:
+            return False, "error message: %s; binary %r, model %r" % (why, title[:300], show_model_text(msg)[:300]), holes, nonmin
+        if impl_idx is not None and str(impl_idx) != idx:
+            return False, "model fails at entry %s, the binary's diagnostic points into entry %s" % (idx, impl_idx), holes, nonmin
+        return True, "", holes, nonmin
+    if model_res.startswith("panic:"):
+        ok = st == "exit:101"
+        return ok, "model: panic site %s; binary: %s" % (dec(model_res[6:]), st), 0, 0
+    return False, "model result %r" % model_res[:80], 0, 0
+
+
+def cmdtext_stream(chk, root, results, name):
+    """results: [(case, k, kv)] of the process-level stream.  Every (ledger input, covered command) whose N processes
+    agreed is compared with the model's text."""
+    by_case = {}
+    for case, k, kv in results:
+        if case.get("kind") != "ledger" or kv.get("same") != "1":
+            continue
+        cs = cmd_sexp(case, case["cmds"][k])
+        if cs is None:
+            continue
+        by_case.setdefault(case["id"], (case, {}))[1].setdefault(cs[1], []).append((k, kv, cs[0]))
+    jobs = []          # (case, ledger file, [(k, kv, sexp)])
+    for cid in sorted(by_case):
+        case, per_file = by_case[cid]
+        for lf in sorted(per_file):
+            jobs.append((case, lf, per_file[lf]))
+    if not jobs:
+        return
+    hx_lines = []
+    for j, (case, lf, _) in enumerate(jobs):
+        d = os.path.join(root, case["id"])
+        ws = ["root=" + enc(os.path.join(d, lf))]
+        for fn in sorted(case["files"]):
+            if fn.endswith(".ledger"):
+                ws.append("%s=%s" % (enc(os.path.join(d, fn)), enc(case["files"][fn])))
+        hx_lines.append("t%d %s" % (j, " ".join(ws)))
+    impl = run_sharded(HX, ["process"], hx_lines, shards=8)
+    if len(impl) != len(jobs):
+        raise BuildError("hx process returned %d records for %d cases" % (len(impl), len(jobs)))
+    drv_lines, keep = [], []
+    for (case, lf, cmds), rec in zip(jobs, impl):
+        if " tree=" not in rec or " result=" not in rec:
+            raise BuildError("hx process: unexpected record %r" % rec[:200])
+        tree, result = rec.split(" tree=", 1)[1].split(" result=", 1)
+        if result.startswith("(loaderr") or result.startswith("(panic"):
+            chk.count("cmdtext:skipped-" + result[1:].split(" ")[0].rstrip(")"), len(cmds))
+            continue
+        m = re.match(r"\(err (\d+) ", result)
+        impl_idx = int(m.group(1)) if m else None
+        drv_lines.append("%s tree=%s cmds=(%s)" % (rec.split(" ", 1)[0], tree, " ".join(c[2] for c in cmds)))
+        keep.append((case, lf, cmds, impl_idx, result.startswith("(err")))
+    model = run_sharded(DRV, ["c13", "cmd"], drv_lines, shards=8)
+    if len(model) != len(keep):
+        raise BuildError("drv c13 cmd returned %d records for %d cases" % (len(model), len(keep)))
+    n = 0
+    for (case, lf, cmds, impl_idx, impl_failed), rec in zip(keep, model):
+        ws = rec.split(" ")[1:]
+        if len(ws) != len(cmds):
+            chk.disagreements += 1
+            chk.violation("drv c13 cmd cannot handle a tree the implementation parsed: %r" % rec[:200],
+                          {"stream": "c13 cmdtext", "files": case["files"], "record": rec[:2000]}, no_failing_input=True, tag="corr")
+            continue
+        for (k, kv, sx), mres in zip(cmds, ws):
+            argv = case["cmds"][k]
+            n += 1
+            chk.evaluations += 1
+            chk.traces += 1
+            agree, what, holes, nonmin = cmdtext_compare(mres, kv, impl_idx)
+            kind = mres.split(":", 1)[0]
+            chk.count("cmdtext:%s:%s" % (argv[0] + ("-range" if "--start" in argv or "--end" in argv else "") +
+                                          ("-account" if argv[0] == "register" and sx != "(register)" else ""), kind))
+            chk.count("cmdtext:numerals-matched-by-value", holes)
+            chk.count("cmdtext:numerals-with-trailing-zeros-or-negative-zero", nonmin)
+            if agree:
+                continue
+            chk.disagreements += 1
+            d = os.path.join(root, case["id"])
+            chk.violation("okane %s: the text model and the binary disagree: %s" % (" ".join(argv), what),
+                          {"stream": "c13 cmdtext", "command": [OKANE] + argv, "cwd": d, "files": case["files"],
+                           "binary": {"status": kv.get("st"), "stdout": dec(kv.get("out", "~")), "stderr": ANSI.sub("", dec(kv.get("err", "~")))},
+                           "model": show_model_text(dec(mres.split(":", 2)[-1])) if ":" in mres else mres,
+                           "model_kind": kind, "what": what, "features": case.get("features"),
+                           "expected": "stdout / error title / exit status of the binary = Okane.CmdText.run on the parsed tree "
+                                       "(byte for byte outside numerals, numerals by exact value)"},
+                          no_failing_input=True, tag="corr")
+    chk.streams[name] = chk.streams.get(name, 0) + n
+
+
 def check_sites(chk):
     sites, files = hash_iter_sites.scan(REPO)
     reviewed = json.load(open(SITES_FILE, encoding="utf-8"))
@@ -1108,6 +1391,7 @@ def run(chk):
     res = run_cases(chk, root, corpus, max(n, 24)) if corpus else []
     chk.streams["corpus"] = len(res)
     jobs = process_results(chk, root, res, known_seen, shrink=False)
+    cmdtext_stream(chk, root, res, "cmdtext-model-vs-binary")
 
     # 2. generated stream
     n_led, n_imp = (110, 90) if tier == "quick" else (1500, 900)
@@ -1116,6 +1400,7 @@ def run(chk):
     chk.streams["process-level"] = len(res)
     chk.streams["process-runs"] = len(res) * n
     jobs += process_results(chk, root, res, known_seen)
+    cmdtext_stream(chk, root, res, "cmdtext-model-vs-binary")
     for c in cases:
         for f in c["features"]:
             chk.count("feature:" + re.sub(r"-\d+$", "", f))
